@@ -31,6 +31,7 @@ type PropSpec struct {
 	Bounded    []string
 	Replays    map[string]string // obligation regexp -> replay driver name
 	NoClaim    []string          // obligation regexps that are attempted but not claimed
+	Specs      []string          // spec files to load (base names); empty: all
 }
 
 func readProp(path string) (*PropSpec, error) {
@@ -68,6 +69,8 @@ func readProp(path string) (*PropSpec, error) {
 			ps.Trusted = append(ps.Trusted, rest)
 		case "bounded":
 			ps.Bounded = append(ps.Bounded, rest)
+		case "specs":
+			ps.Specs = append(ps.Specs, strings.Fields(rest)...)
 		case "noclaim":
 			ps.NoClaim = append(ps.NoClaim, rest)
 		case "replay":
@@ -173,7 +176,7 @@ func cmdCheck(args []string) int {
 		fmt.Fprintln(os.Stderr, "error loading repository:", err)
 		return 2
 	}
-	if err := prog.LoadContracts(filepath.Join(*verif, "specs")); err != nil {
+	if err := prog.LoadContracts(filepath.Join(*verif, "specs"), ps.Specs); err != nil {
 		fmt.Fprintln(os.Stderr, "error in contracts:", err)
 		return 2
 	}
